@@ -85,8 +85,9 @@ let parse_op (line : string) : op =
      | "evict" -> OEvict name
      | "reopen" -> OReopen
      | "revert" -> ORevert
-     | "asc" | "ascx" | "itasc" -> OVisit (true, name, keyb, wv, stop)
-     | "desc" | "descx" | "itdesc" -> OVisit (false, name, keyb, wv, stop)
+     | "asc" | "ascx" | "itasc" | "nasc" | "nit" -> OVisit (true, name, keyb, wv, stop)
+     | "desc" | "descx" | "itdesc" | "ndesc" -> OVisit (false, name, keyb, wv, stop)
+     | "junk" -> OReopen
      | "len" -> OLen name
      | _ -> raise (Unsupported k))
   | _ -> raise (Unsupported line)
